@@ -52,6 +52,8 @@ type Ctx struct {
 	extra     map[string]any
 	notes     []string
 	mute      map[string]bool // rules of another property whose discharged obligations are not recorded here
+
+	fieldStoreIdx map[string][]*ssa.Store
 }
 
 func (c *Ctx) rel(p token.Pos) string {
